@@ -452,7 +452,8 @@ pub struct SchedOutcome {
 /// reopened (nothing is cached): the threads are lined up at the size query inside Table::open
 /// and let go together, so that the table-cache / block-cache bookkeeping of the opens races.
 fn run_cold_open(sc: &Scenario, seed: u64, run_no: u64) -> SchedOutcome {
-    let u = Arc::new(Universe::plain(6));
+    const ROUNDS: usize = 30;
+    let u = Arc::new(Universe::plain(16));
     let sink = TraceSink::new(Arc::clone(&u));
     let fs = SimFs::new(ROOT);
     let ctl = Ctl::new();
@@ -513,7 +514,7 @@ fn run_cold_open(sc: &Scenario, seed: u64, run_no: u64) -> SchedOutcome {
         };
         // one table file per key (values of 300 bytes against 600-byte files), then everything
         // merged into level 1 or deeper: the files do not overlap
-        for k in 1..=6 {
+        for k in 1..=16 {
             env.put(k, 300);
             let _ = db.verif_force_flush();
         }
@@ -530,7 +531,7 @@ fn run_cold_open(sc: &Scenario, seed: u64, run_no: u64) -> SchedOutcome {
     let mut met = 0;
     let mut db = db;
     let mut env_last: Option<Arc<Env>> = None;
-    for round in 0..4 {
+    for _round in 0..ROUNDS {
         drop(env_last.take());
         match Arc::try_unwrap(db) {
             Ok(d) => drop(d),
@@ -550,36 +551,39 @@ fn run_cold_open(sc: &Scenario, seed: u64, run_no: u64) -> SchedOutcome {
             ctl: ctl.clone(),
             next_vid: Mutex::new(next_vid),
         });
-        fs.set_rendezvous("size", n, 300);
-        let mut rxs = vec![];
-        for i in 0..n {
-            let e2 = Arc::clone(&env);
-            let name = format!("r{}", i + 1);
-            // keys far apart: different files
-            let k = 1 + (((i as i64) * 5) / ((n as i64) - 1).max(1) + round as i64) % 6;
-            rxs.push((
-                name.clone(),
-                spawn_named(&name, move || {
-                    e2.get(k);
-                }),
-            ));
-        }
-        for (name, rx) in rxs {
-            if rx.recv_timeout(Duration::from_secs(20)).is_err() {
-                sink.emit_json("Hang", json!({"what": format!("cold reader {}", name)}));
-                status = "hang".into();
+        // groups of n keys that are far apart (different files), each key read for the first
+        // time since the reopen
+        let stride = 16 / n as i64;
+        for g in 0..stride {
+            fs.set_rendezvous("size", n, 100);
+            let mut rxs = vec![];
+            for i in 0..n {
+                let e2 = Arc::clone(&env);
+                let name = format!("r{}", i + 1);
+                let k = 1 + g + (i as i64) * stride;
+                rxs.push((
+                    name.clone(),
+                    spawn_named(&name, move || {
+                        e2.get(k);
+                    }),
+                ));
             }
-        }
-        met += fs.set_rendezvous("size", 0, 0);
-        if status == "ok" {
-            for _ in 0..2 {
-                for k in 1..=6 {
-                    env.get(k);
+            for (name, rx) in rxs {
+                if rx.recv_timeout(Duration::from_secs(20)).is_err() {
+                    sink.emit_json("Hang", json!({"what": format!("cold reader {}", name)}));
+                    status = "hang".into();
                 }
             }
-            env.scan(false, false);
-            env.put(3, 40);
-            env.get(3);
+            met += fs.set_rendezvous("size", 0, 0);
+            if status != "ok" {
+                break;
+            }
+        }
+        if status == "ok" {
+            // whatever the racing opens left in the caches is used from now on
+            for k in 1..=16 {
+                env.get(k);
+            }
             let _ = wait_quiescent(&db, Duration::from_secs(20));
         }
         next_vid = *env.next_vid.lock();
@@ -587,6 +591,13 @@ fn run_cold_open(sc: &Scenario, seed: u64, run_no: u64) -> SchedOutcome {
         if status != "ok" {
             break;
         }
+    }
+    if status == "ok" {
+        let env = env_last.as_ref().unwrap();
+        env.scan(false, false);
+        env.put(3, 40);
+        env.get(3);
+        let _ = wait_quiescent(&db, Duration::from_secs(20));
     }
     let env = env_last.take().unwrap();
     for p in peek_panics() {
